@@ -166,7 +166,7 @@ class KSKKey(FrozenBaseModel):
 
     description: str
     label: KeyName
-    key_tag: int | None = Field(default=None, ge=1, le=65535)
+    key_tag: int | None = Field(default=None, ge=0, le=65535)
     algorithm: AlgorithmDNSSEC
     valid_from: datetime
     valid_until: datetime | None = None
